@@ -473,8 +473,8 @@ func generate(family string, rng *rand.Rand, thorough bool) []plan {
 						for _, n := range []int{rng.Intn(par + 1), par, par + 1 + rng.Intn(4)} {
 							s := &Stage{Kind: "fork", Par: par, Gate: gate, Inner: inner}
 							wc := 0
-							if rng.Intn(3) == 0 && !(par >= 7 && inner.Kind == "fmap") {
-								// (seven workers each in the middle of several sends when the cancel arrives: the trace
+							if rng.Intn(3) == 0 && par < 7 {
+								// (seven workers in the middle of their sends when the cancel arrives: the trace
 								// acceptance explores too many interleavings; cancel is exercised with fewer workers)
 								wc = 1
 							}
@@ -488,7 +488,7 @@ func generate(family string, rng *rand.Rand, thorough bool) []plan {
 		// every in-flight call completes, the workers are parked in their sends when the cancel arrives (before or after
 		// the close of the input) - all of them exit and everything closes
 		for rep := 0; rep < 2*mul; rep++ {
-			for _, par := range []int{1, 2, 4} {
+			for _, par := range []int{1, 2, 3} {
 				for _, inner := range []*Stage{
 					{Kind: "map", A: 2, B: 1}, {Kind: "fmap", M: 2}, {Kind: "filter", Pred: &Pred{Kind: "true"}},
 					{Kind: "partition", Pred: preds(rng)}, {Kind: "foreach"}, {Kind: "void"},
